@@ -188,6 +188,8 @@ pub fn profile(p: &Params) -> Profile {
             pr.dedup = None;
             pr.id_pool = 5;
             pr.w_poll = 6;
+            // with and without server-side encryption: reported sizes must be those of what is stored (the ciphertext)
+            pr.encryption = None;
         }
         "C17" => {
             pr.max_parts = 12;
